@@ -91,7 +91,11 @@ const (
 // VerifC38_MembershipStep: one-step induction for the group membership
 // invariant. Pre-state: a real Group whose three pslices are filled according
 // to an arbitrary assignment of each tracked peer to at most one list with
-// connected => neighbour; then ONE operation with arbitrary arguments.
+// connected => neighbour - or connected and NOT a neighbour any more ("stale":
+// the direct link was lost after the peer was listed and no operation has
+// addressed the peer since); then ONE operation with arbitrary arguments.
+// Afterwards connected => neighbour must hold for every peer that was inside
+// the invariant before and for the peer the operation addressed.
 func VerifC38_MembershipStep() {
 	np := zzverif.Param("peers", 2, 3)
 	zzverif.Unwind(64)
@@ -108,13 +112,20 @@ func VerifC38_MembershipStep() {
 
 	// ---- pre-state -------------------------------------------------------
 	pre := make([]int, np)
+	// stale[i]: peer i is in the connected list but has stopped being a direct
+	// neighbour since it was listed (the route table changes on its own; the
+	// multicast service learns about it later). Such a peer is outside the
+	// invariant until an operation addresses it; every operation that (re)lists
+	// the peer has to restore "connected => neighbour" for it.
+	stale := make([]bool, np)
 	for i := range peers {
 		rt.nb[i] = zzverif.Bool("neighbour")
 		st := zzverif.Choose("list", 4)
 		pre[i] = st
 		switch st {
 		case verifC38Conn:
-			zzverif.Assume(rt.nb[i]) // invariant: connected => neighbour
+			// invariant: connected => neighbour, unless the link was lost meanwhile
+			stale[i] = !rt.nb[i]
 			g.connectedPeers.Add(peers[i])
 		case verifC38Kept:
 			g.keepPeers.Add(peers[i])
@@ -177,7 +188,10 @@ func VerifC38_MembershipStep() {
 		k := verifC38Count(kept, peers[i])
 		n := verifC38Count(known, peers[i])
 		zzverif.Assert(c+k+n <= 1, "peer in at most one of connected/kept/known")
-		if c > 0 {
+		// touched: the operation addresses this peer (add, remove, or an
+		// announcement that concerns this group)
+		touched := i == t && (op == 0 || op == 1 || (op == 3 && (joins || recorded)))
+		if c > 0 && (!stale[i] || touched) {
 			zzverif.Assert(rt.nb[i], "connected => neighbour")
 		}
 		now := verifC38None
